@@ -324,7 +324,9 @@ func getTagType(v reflect.Value) (byte, reflect.Value) {
 			break
 		}
 		if v.IsNil() {
-			v.Set(reflect.New(v.Type().Elem()))
+			// a nil pointer is encoded as the zero value it would point to;
+			// the caller's value is left alone (it may not even be settable)
+			v = reflect.New(v.Type().Elem())
 		}
 		if v.Type().NumMethod() > 0 && v.CanInterface() {
 			i := v.Interface()
